@@ -1053,9 +1053,6 @@ fn reverse_bid(cx: &Ctx, id: &str, size: Option<Option<u128>>, action: &'static 
     if id_class(id) == IdClass::NotUuid {
         return dont("non_uuid_key_on_book");
     }
-    if bid.v2 {
-        return dont("old_format_bid");
-    }
     let requested = size.flatten();
     let c = match requested {
         None => bid.unfilled(),
@@ -1189,9 +1186,6 @@ fn execute_match(cx: &Ctx, ask_id: &str, bid_id: &str, price: &str, size: u128) 
     if !cx.funds_empty() {
         // no statement says what happens to funds attached to a match; solvency (C01) still applies
         return dont("funds_attached_to_match");
-    }
-    if bid.v2 {
-        return dont("old_format_bid");
     }
     if ask.quote != bid.quote_denom {
         return refuse("quote_mismatch");
